@@ -269,3 +269,32 @@ package phttp
 //@ tag URIElements validate min=1
 //@ tag URIElements config uri-elements
 //@ tag NoTagOnly config no-tag-only
+
+// ---------------------------------------------------------------- the gun as the engine sees it (wrapper.go)
+
+//@ func WrapGun
+//@ props C09 C10
+//@ modifies nothing
+//@ ensures [no-gun-no-wrapper] imp(g == nil, result == nil) && imp(g != nil, typeis(result, *gunWrapper) && result.(*gunWrapper).Gun == g)
+
+// Every shot, binding and warm-up reaches the wrapped gun with the same arguments; the aggregator is unwrapped once.
+//@ func (g *gunWrapper) Shoot
+//@ props C09 C10 C03
+//@ requires g.Gun != nil && typeis(ammo, Ammo)
+//@ may_panic true
+//@ at call g.Gun.Shoot assert [the-given-ammo] box(arg(ammo)) == ammo0
+//@ ensures [one-shot-per-shot] calls(g.Gun.Shoot) == 1
+
+//@ func (g *gunWrapper) Bind
+//@ props C09 C10
+//@ requires g.Gun != nil
+//@ may_panic true
+//@ at call netsample.UnwrapAggregator assert arg(a) == a0
+//@ at call g.Gun.Bind assert [the-engine-s-aggregator-and-dependencies] arg(sample) == result_of(netsample.UnwrapAggregator, 0) && arg(deps) == deps0
+//@ ensures result == result_of(g.Gun.Bind, 0)
+
+//@ func (g *gunWrapper) WarmUp
+//@ props C09 C11
+//@ requires g.Gun != nil
+//@ at call g.Gun.WarmUp assert arg(opts) == opts0
+//@ ensures result0 == result_of(g.Gun.WarmUp, 0) && result1 == result_of(g.Gun.WarmUp, 1)
